@@ -28,13 +28,14 @@ fn spec() -> Spec {
             Kind { name: "delegation", quick: 150_000, thorough: 3_000_000, serial: false },
             Kind { name: "axes", quick: 100_000, thorough: 2_000_000, serial: false },
             Kind { name: "shared_history", quick: 30_000, thorough: 800_000, serial: false },
+            Kind { name: "with_shape", quick: 6_000, thorough: 200_000, serial: false },
         ],
-        rule: "value: non-degenerate robot x stack of depth 1..3 in any order from Tool/Base/Frame (uniform rotations and translations; axial tools/frames for the 5-DOF clauses) x q: forward == base*chain*tool in plain matrices, link poses (tool unchanged, base pre-multiplied, frame last), every answer of every inverse entry point lands on the request through the reference composition, continuation ordering and verbatim J6 hold at the outermost level. delegation: the same stacks over a SpyKinematics: for each of the 8 trait methods exactly one inner call of the same method, pose argument == analytically transformed request, scalar/previous arguments bit-identical, results passed through. shared_history: 2-3 stacks of the same wrapper types but other transforms over ONE shared inner robot object, asked the bit-identical joint vector and requested pose in the order A,B,(C,)A,.. on one thread, each judged by its own reference composition. axes: LinearAxis / Gantry forward == base*translation*inner forward. non-trivial = stack has a rotation != identity; distinct = hash(robot, stack, q, method)",
+        rule: "value: non-degenerate robot x stack of depth 1..3 in any order from Tool/Base/Frame (uniform rotations and translations; axial tools/frames for the 5-DOF clauses) x q: forward == base*chain*tool in plain matrices, link poses (tool unchanged, base pre-multiplied, frame last), every answer of every inverse entry point lands on the request through the reference composition, continuation ordering and verbatim J6 hold at the outermost level. delegation: the same stacks over a SpyKinematics: for each of the 8 trait methods exactly one inner call of the same method, pose argument == analytically transformed request, scalar/previous arguments bit-identical, results passed through. shared_history: 2-3 stacks of the same wrapper types but other transforms over ONE shared inner robot object, asked the bit-identical joint vector and requested pose in the order A,B,(C,)A,.. on one thread, each judged by its own reference composition. with_shape: KinematicsWithShape is a base + tool stack with a collision filter on top: the same value clauses (forward, links, every answer maps back, continuation ordering at the outermost level) on synthetic cells whose obstacles sit on IK branches of the request. axes: LinearAxis / Gantry forward == base*translation*inner forward. non-trivial = stack has a rotation != identity; distinct = hash(robot, stack, q, method)",
         assumptions: vec![
             "5-DOF variants are only judged on stacks whose tools/frames are axial (translation along and rotation about the flange z axis), as the statement presupposes",
             "forward/link tolerance 1e-11*(1+reach); inverse accuracy 1e-6 m / 1e-6 rad + 1e-9",
         ],
-        minimums: vec![("oracle_evals", 5_000_000, 120_000_000), ("delegation.matrix_cells", 1_000_000, 20_000_000), ("axes.checked", 300_000, 6_000_000), ("history.steps", 120_000, 3_000_000)],
+        minimums: vec![("oracle_evals", 5_000_000, 120_000_000), ("delegation.matrix_cells", 1_000_000, 20_000_000), ("axes.checked", 300_000, 6_000_000), ("history.steps", 120_000, 3_000_000), ("with_shape.filtered_lists", 500, 20_000)],
     }
 }
 
@@ -43,6 +44,7 @@ fn run_case(kind: &str, idx: u64, rng: &mut Rng, mon: &mut Mon, _tier: Tier) {
         "value" => value(idx, rng, mon),
         "delegation" => delegation(idx, rng, mon),
         "shared_history" => shared_history(idx, rng, mon),
+        "with_shape" => with_shape(idx, rng, mon),
         _ => axes(idx, rng, mon),
     }
 }
@@ -114,6 +116,52 @@ fn shared_history(idx: u64, rng: &mut Rng, mon: &mut Mon) {
         mon.count("history.steps");
         check_stack(mon, &robot, &stacks[k], kins[k].as_ref(), &q, &request, &prev, j6, axial, "history:");
     }
+}
+
+/// The collision-aware robot is itself a base + tool stack (with a filter on top): same value clauses.
+fn with_shape(idx: u64, rng: &mut Rng, mon: &mut Mon) {
+    use crate::cell::Cell;
+    let mut cell = Cell::generate(rng, idx, true, true, false);
+    let free = cell.build();
+    let mut q = None;
+    for _ in 0..20 {
+        let t = crate::props::c10::gen_posture(rng);
+        let c = cell.robot.rp.from_theta(&t);
+        let c: [f64; 6] = std::array::from_fn(|j| c[j].max(-3.0).min(3.0));
+        if !free.collides(&c) {
+            q = Some(c);
+            break;
+        }
+    }
+    let q = match q {
+        Some(q) => q,
+        None => {
+            mon.inconclusive("with_shape:no-free-posture");
+            return;
+        }
+    };
+    let layers = vec![Layer::Base(cell.base_tf), Layer::Tool(cell.tool_tf)];
+    let request = ref_forward(&cell.robot.rp, &layers, &q);
+    let mut prev = q;
+    for j in 0..6 {
+        prev[j] += rng.range(-0.5, 0.5);
+    }
+    // obstacles on IK branches of the request (often the one nearest to previous), so that the filter removes
+    // answers from the front or the middle of the list
+    let branches = Kinematics::inverse_continuing(&free, &fr_to_iso(&request), &prev);
+    for _ in 0..(1 + rng.usize(2)) {
+        if !branches.is_empty() {
+            let b = branches[if rng.bool(0.6) { 0 } else { rng.usize(branches.len()) }];
+            let (target, gap) = (1 + rng.usize(5), rng.range(-0.03, 0.0));
+            cell.add_designed_obstacle(rng, &b, target, gap);
+        }
+    }
+    let robot = cell.build();
+    let after = Kinematics::inverse_continuing(&robot, &fr_to_iso(&request), &prev);
+    if after.len() >= 2 && after.len() < branches.len() {
+        mon.count("with_shape.filtered_lists");
+    }
+    check_stack(mon, &cell.robot, &layers, &robot, &q, &request, &prev, 0.0, false, "with-shape:");
 }
 
 #[allow(clippy::too_many_arguments)]
